@@ -274,6 +274,10 @@ class Report:
                        "broken": [r for _, r in others][:20]}, open(path, "w", encoding="utf-8"), ensure_ascii=False, indent=1)
             out_lines.append("VIOLATION property=%s replay=%s no-failing-input-found" % (self.prop, path))
             nviol = len(others)
+        if not nviol:
+            stale = os.path.join(ROOT, "replays", "%s-%s-%d.json" % (self.prop, self.tier, self.seed))
+            if os.path.exists(stale):
+                os.remove(stale)
         ev = {"property_id": self.prop, "tier": self.tier, "seed": self.seed, "level": "proof",
               "coverage": self.cov, "assumptions": assumptions or [], "wall_s": round(time.time() - self.t0, 2),
               "violations": nviol}
